@@ -153,6 +153,13 @@ func registerVFS(m *Machine) {
 	in["(time.Time).After"] = func(m *Machine, fr *frame, a []value) value { return m.T.Bin(OpSlt, timeNS(a[1]), timeNS(a[0])) }
 	in["(time.Time).Before"] = func(m *Machine, fr *frame, a []value) value { return m.T.Bin(OpSlt, timeNS(a[0]), timeNS(a[1])) }
 	in["(time.Time).Equal"] = func(m *Machine, fr *frame, a []value) value { return m.T.Eq(timeNS(a[0]), timeNS(a[1])) }
+	in["(time.Time).UnixNano"] = func(m *Machine, fr *frame, a []value) value { return timeNS(a[0]) }
+	in["(time.Time).UnixMilli"] = func(m *Machine, fr *frame, a []value) value {
+		return m.T.Bin(OpUDiv, timeNS(a[0]), m.T.Const(64, 1_000_000))
+	}
+	in["(time.Time).Unix"] = func(m *Machine, fr *frame, a []value) value {
+		return m.T.Bin(OpUDiv, timeNS(a[0]), m.T.Const(64, 1_000_000_000))
+	}
 	in["sym:symAdvanceClock"] = func(m *Machine, fr *frame, a []value) value {
 		old := m.now()
 		if m.journaling {
